@@ -36,7 +36,8 @@ impl AnonymousIngressEngine {
 
   pub fn deregister_pipe(&self, pipe_id: usize) {
     self.queue.deregister_pipe(pipe_id);
-    *self.local_cache.lock() = None;
+    // The cache holds the unread frames of a message that was already dequeued whole;
+    // they belong to the application and must survive any peer going away.
   }
 
   pub fn close(&self) {
